@@ -147,3 +147,24 @@ Qed.
 
 Lemma encode_ascii r : (0 <=? r) && (r <? 128) = true -> encode_rune r = [zb r].
 Proof. intros H. unfold encode_rune. rewrite H. reflexivity. Qed.
+
+(* a decoded rune is never negative *)
+Ltac byte_ranges :=
+  repeat match goal with
+  | b : byte |- _ =>
+      lazymatch goal with
+      | _ : 0 <= bz b < 256 |- _ => fail
+      | _ => pose proof (bz_range b)
+      end
+  end.
+Lemma decode_nonneg s r w : decode_rune s = (r, w) -> 0 <= r.
+Proof.
+  unfold decode_rune. destruct s as [|b0 t]; [intros H; inversion H; unfold RuneError; lia|].
+  intros D.
+  repeat match type of D with
+  | (if ?c then _ else _) = _ => destruct c eqn:?
+  | (match ?x with _ => _ end) = _ => destruct x eqn:?
+  | (let _ := _ in _) = _ => cbv zeta in D
+  end; inversion D; subst; unfold RuneError, cont, inr in *; byte_ranges;
+  repeat match goal with H : context [if ?c then _ else _] |- _ => destruct c eqn:? end; lia.
+Qed.
